@@ -22,7 +22,8 @@ then ` | ` 2-D arrays `LXxLY[...]` (j-major), then ` | ` matrices `RxC[...]` whe
   setscalar v IDX x | setscalarmask v m x | setvector v IDX d | setvectormask v m d
   ifelses v c x | ifelsev v c o | ro v | iadds v x | iaddv v d
   allocw w c00,c01,..  (array of w-component elements, cell by cell) | comp v k  (component array `.x/.y/...`)
-  elemset v i k x  (`e = a[i]; e.<component k> = x`) | allocfill x n  (`IntArray(x, n)`)
+  elemset v i k x  (`e = a[i]; e.<component k> = x`) | allocfill x n  (`IntArray(x, n)`) | settuple / setlist v i c0,c1,..
+  copyc v | copyd v  (`copy.copy`, `copy.deepcopy`) | convert v <Target> | d2 convert v <T> | d2 settuple v i j x <tuple length>
   IDX = i:<int> | s:<start>:<stop>:<step>   (N = None)
 slice normalisation alone (PySlice_GetIndicesEx):
   slice len start stop step            -> `ok start stop step slicelength [positions]` | `err ...`
@@ -127,7 +128,10 @@ def parseOp (t : List String) : Option Op :=
   | ["getslice", v, i] => some (.getslice v.toNat! (parseIdx i))
   | ["getmask", v, m] => some (.getmask v.toNat! m.toNat!)
   | ["copy", v] => some (.copy v.toNat!)
+  | ["copyc", v] => some (.copy v.toNat!)          -- `copy.copy(a)`: `__copy__` wraps the copy constructor
+  | ["copyd", v] => some (.copy v.toNat!)          -- `copy.deepcopy(a)`: `__deepcopy__` wraps the SAME copy constructor (shares storage)
   | ["convert", v] => some (.convert v.toNat!)
+  | ["convert", v, _] => some (.convert v.toNat!)  -- converting constructor to a NAMED target class (same template)
   | ["setscalar", v, i, x] => some (.setScalar v.toNat! (parseIdx i) (parseInt x))
   | ["setscalarmask", v, m, x] => some (.setScalarMask v.toNat! m.toNat! (parseInt x))
   | ["setvector", v, i, d] => some (.setVector v.toNat! (parseIdx i) d.toNat!)
@@ -137,6 +141,8 @@ def parseOp (t : List String) : Option Op :=
   | ["ro", v] => some (.makeReadOnly v.toNat!)
   | ["iadds", v, x] => some (.iaddScalar v.toNat! (parseInt x))
   | ["iaddv", v, d] => some (.iaddVector v.toNat! d.toNat!)
+  | ["allocw", w, cells] => some (.allocWide w.toNat! (parseVals cells))
+  | ["comp", v, k] => some (.comp v.toNat! k.toNat!)
   | _ => none
 
 def handleSlice (cfg : Cfg) (t : List String) : String :=
@@ -183,12 +189,14 @@ def newM (d : DState) (r : Except Err (Heap × MatView)) : DState × String :=
   | .ok (h, v) => ({ d with s := ⟨h, d.s.env⟩, envM := d.envM ++ [v] }, s!"new {d.envM.length}")
   | .error e => (d, showErr e)
 
-def handle2D (d : DState) (t : List String) : DState × String :=
+partial def handle2D (d : DState) (t : List String) : DState × String :=
   let h := d.s.heap
   match t with
   | ["alloc", lx, ly, vals] => new2 d (.ok (alloc2D h lx.toNat! ly.toNat! (parseVals vals)))
   | ["alloci", lx, ly, vals] => new2 d (.ok (alloc2D h lx.toNat! ly.toNat! (parseVals vals)))   -- an IntArray2D (mask / choice)
   | ["fill", x, lx, ly] => new2 d (.ok (alloc2D h lx.toNat! ly.toNat! (List.replicate (lx.toNat! * ly.toNat!) (parseInt x))))
+  | ["copyc", v] => handle2D d ["copy", v]      -- `copy.copy(a)` / `copy.deepcopy(a)` of the 2-D colour arrays: the copy constructor
+  | ["copyd", v] => handle2D d ["copy", v]
   | ["copy", v] =>        -- `IntArray2D(a)`: the copy constructor, another handle on the same data
     match v2 d v with
     | .ok a => ({ d with env2 := d.env2 ++ [a] }, s!"new {d.env2.length}")
@@ -197,6 +205,12 @@ def handle2D (d : DState) (t : List String) : DState × String :=
     match v2 d v with
     | .ok a => (d, s!"int {a.totalLen}")
     | .error e => (d, showErr e)
+  | ["convert", v, _] =>      -- `FloatArray2D(IntArray2D)` ...: the converting constructors, a fresh dense copy
+    new2 d ((v2 d v).bind (fun a =>
+      (mapE (fun p => a.get h p.1 p.2) (pairsJI a.lenX a.lenY)).bind (fun vals => .ok (alloc2D h a.lenX a.lenY vals))))
+  | ["settuple", v, i, j, x, n] =>     -- `c[(i, j)] = (r, g, b, a)` of the 2-D colour arrays; `n` = tuple length sent
+    if n != "4" then (d, "err ValueError:tupleLen") else
+    withHeap d ((v2 d v).bind (fun a => setitemScalar2D h a (.int (parseInt i)) (.int (parseInt j)) (parseInt x)))
   | ["set1dmask", v, m, dd] =>
     withHeap d ((v2 d v).bind (fun a => (v2 d m).bind (fun b => (v1 d dd).bind (fun c => setitemArray1DMask h a b c))))
   | ["ifelses", v, c, x] => new2 d ((v2 d v).bind (fun a => (v2 d c).bind (fun b => ifelseScalar2D h a b (parseInt x))))
@@ -485,11 +499,8 @@ def handleV (so : Bool) (d : DState) (t : List String) : DState × String :=
   | _ => (d, "bad")
 
 /-- component arrays (outside `Op`, like matrix rows): `allocw w cells`, `comp v k` -/
-def handleComp (km : Bool) (d : DState) (t : List String) : DState × String :=
+partial def handleComp (km : Bool) (d : DState) (t : List String) : DState × String :=
   match t with
-  | ["allocw", w, cells] =>
-    let (h, v) := allocWide d.s.heap w.toNat! (parseVals cells)
-    ({ d with s := ⟨h, d.s.env ++ [v]⟩ }, s!"new {d.s.env.length}")
   | ["elemset", v, i, k, x] =>
     -- `e = a[i]; e.<component k> = x`: the element of a WRITABLE class-typed array is handed out by reference (the write
     -- lands in the array), that of a read-only array by value (the write is lost, nothing raises)
@@ -503,10 +514,24 @@ def handleComp (km : Bool) (d : DState) (t : List String) : DState × String :=
         match (a.elemIndex q).bind (fun r => d.s.heap.wr a.buf (a.pos r + k.toNat!) (parseInt x)) with
         | .ok h' => ({ d with s := ⟨h', d.s.env⟩ }, "ok")
         | .error e => (d, showErr e)
-  | ["comp", v, k] =>
-    match (v1 d v).bind (fun a => compView km a k.toNat!) with
-    | .ok c => ({ d with s := ⟨d.s.heap, d.s.env ++ [c]⟩ }, s!"new {d.s.env.length}")
+  | ["settuple", v, i, cells] =>
+    -- `a[i] = (c0, c1, ..)` (`setItemTuple` of the vector / box array classes; also `setlist` for the V2 classes): the tuple
+    -- length is tested first, then `canonical_index`, then the non-const `operator[]` (read-only test, mask-aware)
+    match v1 d v with
     | .error e => (d, showErr e)
+    | .ok a =>
+      let vals := parseVals cells
+      if vals.length ≠ a.stride then (d, "err ValueError:tupleLen") else
+      match canonicalIndex a.length (match parseIdx i with | .int k => k | _ => 0) with
+      | .error e => (d, showErr e)
+      | .ok q =>
+        if !a.writable then (d, showErr .readOnly) else
+        match (a.elemIndex q).bind (fun r =>
+            (List.range vals.length).foldl (fun acc k => acc.bind (fun hh => hh.wr a.buf (a.pos r + k) (vals.getD k 0)))
+              (.ok d.s.heap)) with
+        | .ok h' => ({ d with s := ⟨h', d.s.env⟩ }, "ok")
+        | .error e => (d, showErr e)
+  | ["setlist", v, i, cells] => handleComp km d ["settuple", v, i, cells]
   | _ => (d, "bad")
 
 partial def loop (cfg : Cfg) (km so : Bool) (stdin stdout : IO.FS.Stream) (d : DState) : IO Unit := do
@@ -524,12 +549,10 @@ partial def loop (cfg : Cfg) (km so : Bool) (stdin stdout : IO.FS.Stream) (d : D
     for (name, ops) in witnesses do
       stdout.putStrLn ("# " ++ name)
       for op in ops do stdout.putStrLn op.line
-    stdout.putStrLn "# component-of-masked"
-    for l in witnessComponentLines do stdout.putStrLn l
     stdout.putStrLn "# varray-size-overloads"
     for l in witnessVSizeLines do stdout.putStrLn l
     loop cfg km so stdin stdout d
-  | "allocw" :: _ | "comp" :: _ | "elemset" :: _ =>
+  | "elemset" :: _ | "settuple" :: _ | "setlist" :: _ =>
     let (d', out) := handleComp km d t
     stdout.putStrLn (out ++ ";" ++ d'.dump); loop cfg km so stdin stdout d'
   | "v" :: rest =>
@@ -562,7 +585,7 @@ partial def loop (cfg : Cfg) (km so : Bool) (stdin stdout : IO.FS.Stream) (d : D
 
 def main (args : List String) : IO Unit := do
   let flag (i : Nat) : Bool := (args[i]? |>.getD "0") == "1"
-  let cfg : Cfg := ⟨flag 0, flag 1, flag 2, flag 3, flag 4⟩
+  let cfg : Cfg := ⟨flag 0, flag 1, flag 2, flag 3, flag 4, flag 5⟩
   let stdin ← IO.getStdin
   let stdout ← IO.getStdout
   loop cfg (flag 5) (flag 6) stdin stdout {}
